@@ -1083,10 +1083,7 @@ def table_row_full(binary, kind, ds):
 
 
 def load_findings(chk):
-    if not chk.findings:  # TEMPORARY fallback until the lead merges build/kf-C20.json into known_findings.json
-        p = os.path.join(vlib.VERIF, "build", "kf-C20.json")
-        if os.path.exists(p):
-            chk.findings = json.load(open(p))
+    return None
 
 
 def is_known(chk, fid):
